@@ -58,8 +58,8 @@ struct MethInst {
     const MethSpec* ms = nullptr;
     MethodDesc* desc = nullptr;
     type_id* vp = nullptr;
-    std::deque<detail::definition_info> defs; // parallel to ms->defs
-    std::vector<void*> next_store;
+    std::vector<detail::definition_info*> defs; // parallel to ms->defs
+    std::vector<void**> next;                   // where update writes next
     bool registered = false;
 };
 
@@ -69,12 +69,17 @@ struct World {
     std::deque<detail::class_info> cis; // parallel to spec.recs
     std::vector<char> ci_registered;
     std::vector<std::unique_ptr<type_id[]>> arrays;
-    std::vector<std::uintptr_t*> vptr_store; // per class
-    std::deque<MethInst> meths;              // parallel to spec.meths
-    std::vector<Obj> objs;                   // per class, alias 0
+    std::vector<std::uintptr_t*> own_vptr_store;
+    std::vector<std::uintptr_t*>& vptr_store; // per class
+    std::deque<MethInst> meths;               // parallel to spec.meths
+    std::deque<detail::definition_info> def_pool;
+    std::deque<void*> next_pool;
+    std::vector<Obj> objs; // per class, alias 0
     int deferred_slots = 0;
+    bool is_view = false;
 
-    World(Config& cfg, const Spec& spec) : cfg(cfg), spec(spec) {
+    World(Config& cfg, const Spec& spec)
+        : cfg(cfg), spec(spec), vptr_store(own_vptr_store) {
         cfg.reset();
         vptr_store.assign(spec.n, nullptr);
         for (int c = 0; c < spec.n; ++c) {
@@ -82,15 +87,66 @@ struct World {
         }
     }
 
+    // A view: another Spec (same class numbering and ids) over the
+    // registration objects of `base`; used to check a live sub-registry.
+    // sel[i] = (method index in base, definition indices in base).
+    World(
+        World& base, const Spec& view_spec,
+        const std::vector<std::pair<int, std::vector<int>>>& sel)
+        : cfg(base.cfg), spec(view_spec), vptr_store(base.vptr_store),
+          is_view(true) {
+        for (int c = 0; c < spec.n; ++c) {
+            objs.emplace_back(class_id(spec, c, 0, cfg.projection));
+        }
+        for (std::size_t i = 0; i < sel.size(); ++i) {
+            auto& src = base.meths[sel[i].first];
+            auto& mi = meths.emplace_back();
+            mi.ms = &spec.meths[i];
+            mi.desc = src.desc;
+            mi.vp = src.vp;
+            mi.registered = src.registered;
+            for (int d : sel[i].second) {
+                mi.defs.push_back(src.defs[d]);
+                mi.next.push_back(src.next[d]);
+            }
+        }
+    }
+
     World(const World&) = delete;
 
     ~World() {
-        for (auto& m : meths) {
-            for (auto& d : m.defs) {
-                d.method = nullptr; // catalogs are cleared wholesale
-            }
+        if (is_view) {
+            return;
+        }
+        for (auto& d : def_pool) {
+            d.method = nullptr; // catalogs are cleared wholesale
         }
         cfg.reset();
+    }
+
+    // registered alias ids of a class (projection): aliases used as the
+    // `type` of one of its records
+    std::vector<int> registered_aliases(int c) const {
+        std::vector<int> v;
+        for (auto& r : spec.recs) {
+            if (r.cls == c &&
+                std::find(v.begin(), v.end(), r.alias) == v.end()) {
+                v.push_back(r.alias);
+            }
+        }
+        if (v.empty()) {
+            v.push_back(0);
+        }
+        return v;
+    }
+
+    // give every object the k-th registered alias id of its class
+    void select_alias(int k) {
+        for (int c = 0; c < spec.n; ++c) {
+            auto al = registered_aliases(c);
+            objs[c].id =
+                class_id(spec, c, al[k % al.size()], cfg.projection);
+        }
     }
 
     // one static id as the registration arrays hold it
@@ -158,17 +214,19 @@ struct World {
                 throw std::runtime_error(
                     "no such method in pool of " + cfg.name);
             }
-            auto range = id_array(ms.vp, {});
+            auto range = id_array(ms.vp, ms.vp_alias);
             mi.desc->info->vp_begin = mi.vp = range.first;
             mi.desc->info->vp_end = range.second;
-            mi.next_store.assign(ms.defs.size(), nullptr);
             for (std::size_t d = 0; d < ms.defs.size(); ++d) {
-                auto& di = mi.defs.emplace_back();
-                auto r = id_array(ms.defs[d].cls, {});
+                auto& di = def_pool.emplace_back();
+                auto& nx = next_pool.emplace_back(nullptr);
+                mi.defs.push_back(&di);
+                mi.next.push_back(&nx);
+                auto r = id_array(ms.defs[d].cls, ms.defs[d].alias);
                 di.vp_begin = r.first;
                 di.vp_end = r.second;
                 di.pf = mi.desc->defs[ms.defs[d].fn];
-                di.next = &mi.next_store[d];
+                di.next = &nx;
                 di.type = 0;
                 di.method = nullptr; // set when registered
             }
@@ -186,13 +244,13 @@ struct World {
     }
 
     void register_def(std::size_t m, std::size_t d) {
-        auto& di = meths[m].defs[d];
+        auto& di = *meths[m].defs[d];
         di.method = meths[m].desc->info;
         di.method->specs.push_back(di);
     }
 
     void unregister_def(std::size_t m, std::size_t d) {
-        auto& di = meths[m].defs[d];
+        auto& di = *meths[m].defs[d];
         di.method->specs.remove(di);
         di.method = nullptr;
     }
